@@ -204,5 +204,7 @@ func (c *twistPoint) Neg(a *twistPoint) {
 	c.x.Set(&a.x)
 	c.y.Neg(&a.y)
 	c.z.Set(&a.z)
-	c.t.SetZero()
+	// t = z² is unchanged by negation. Clearing it left a normalised point
+	// (z = 1) with t = 0, which MakeAffine does not repair and miller reads.
+	c.t.Set(&a.t)
 }
